@@ -249,8 +249,15 @@ def check(ctx, rep, cases):
                           chunk=c['schedule'][i][1][:64])
             continue
         # (b)
-        serverlib.compare(rep, case, real, a, 'hostile history vs Server.connStep')
+        same = serverlib.compare(rep, case, real, a, 'hostile history vs Server.connStep')
         if c['inert_only'] and dumps != before:
+            if same:
+                # the front-end did, read by read, what the model does, and in the model a table changes only through a complete
+                # frame with a valid checksum (Props C07 *_frame_valid, C10 connStep_untouched): the damaged pieces happened to
+                # complete a valid write across two reads (a frame cut before its last byte, and the next read starts with
+                # exactly that byte: 1 in 256).  Legitimate; counted, not reported.
+                rep.hist['excluded:write-completed-across-reads'] += 1
+                continue
             rep.violation('bytes that contain no write function code changed the datastore', case)
             continue
         # no request creates or removes cells: whatever the bytes were, every table of every unit keeps its extent
@@ -270,7 +277,9 @@ def check(ctx, rep, cases):
                 badk = i
                 break
             prevd = now
-        if badk is not None:
+        if badk is not None and same:
+            rep.hist['excluded:write-completed-across-reads'] += 1      # (as above: the change was made by a valid frame the model executes too)
+        elif badk is not None:
             rep.violation('a write request whose byte count contradicts its quantity changed the datastore', case, index=badk, written=outs[badk], chunk=c['schedule'][badk][1][:80])
             continue
         # a read that is answered with exception responses only, or not at all, prescribes no change (broadcast off:
